@@ -30,6 +30,20 @@ CLAIMED["C12"] = dict(
     note="Trusted: R1 arc geometry (F.6.5/F.6.6) and the 17-sample-per-cubic discretisation; total-angle check skipped within 1e-6 of 0 / 2pi.",
     design="DESIGN.md 3/C12",
 )
+CLAIMED["C01"] = dict(
+    level="exploration",
+    technique="bounded-exhaustive enumeration of documents (child sequences over an alphabet of supported/unsupported node kinds x root attributes x option grid, library + CLI) vs independent grammar validator",
+    text="Every document of the bounded grammar (all child sequences up to length 2/3 over ~40 leaf kinds and ~250 group kinds, root attribute settings, ndigits 0..6 x allow_text x drop_unsupported, plus the CLI in a subprocess) is converted and the serialised result is validated by an independent implementation of the README grammar (stdlib XML parser + R1 path parser). Exhaustive within the bounds.",
+    note="Trusted: R4 validator (mc/ref/picogrammar.py), R1 path grammar. Tree shapes beyond 3 top-level children / depth 3 and attribute values outside the alphabets are not covered.",
+    design="DESIGN.md 3/C01",
+)
+CLAIMED["C11"] = dict(
+    level="exploration",
+    technique="bounded-exhaustive enumeration (transform-list products x separator styles; exact int/Fraction lattices for the algebra; rectangle lattice x alignments for viewport mapping) vs reference affine model",
+    text="Transform lists of 1-3 (1-5) operations x separator styles are parsed by Affine2D.fromstring and compared with the specification product; the real Affine2D is run on exact rational entries over complete finite lattices (all 6^6 matrices, all ordered pairs of a 3^6 / 4^6 lattice, sparse triples) for inverse / composition order / associativity / string round trip; rect_to_rect is checked for every src/dst pair of a rectangle lattice x 10 alignments x meet/slice against the spec algorithm and geometric post-conditions in exact arithmetic. The 'for all reals' laws are only checked on the lattices (bounded claim).",
+    note="Trusted: R2 (mc/ref/affine.py). Angle operations compared with 1e-9 relative tolerance, rational ones exactly.",
+    design="DESIGN.md 3/C11",
+)
 NOT_YET = "check not built yet in this session (design in DESIGN.md section 3); no claim is made"
 
 checks = []
